@@ -379,4 +379,23 @@ example : (lex exCfg ['x','\n','+','\n']).tokens.map (fun t => (t.tt, t.lexeme))
   simp only [List.map_map] at h2
   exact h2
 
+/-- observation (reported): a continuation in a CRLF file — `\` CR LF — is a lexical error: the backslash is not
+*directly* followed by the newline; the CR is then a blank and the LF a newline -/
+example : Seg exCfg ['x', '\\', '\r', '\n']
+    [⟨.token .identifier .none, ['x']⟩, ⟨.error .badBackslash, ['\\']⟩, ⟨.blank, ['\r']⟩, ⟨.newline, ['\n']⟩] :=
+  .cons _ ['x'] _ _ (.identifier 'x' [] _ (by decide) (by decide) (by decide) (by decide)) <|
+  .cons _ ['\\'] _ _ (.badBackslash _ (by decide)) <|
+  .cons _ ['\r'] _ _ (.blank '\r' _ (by decide)) <|
+  .cons _ ['\n'] _ _ (.newline _) .nil
+
+example (cfg : LexCfg) (prev : Option TT) (pos : Nat) (cs : Str) :
+    scanOne cfg prev pos '\\' ('\r' :: '\n' :: cs) = .err ⟨.badBackslash, [(pos, 1)]⟩ 1 ('\r' :: '\n' :: cs) := rfl
+
+/-- observation (reported): a character that is alphanumeric but not an ASCII digit — e.g. a non-ASCII digit such
+as `٣` (U+0663) or `½`, for Unicode's `is_alphanumeric` — starts an identifier -/
+example (cfg : LexCfg) (c : Char) (h1 : cfg.isAlnum c = true) (h2 : isAsciiDigit c = false)
+    (h3 : isSpecial c = false) (rest : Str) (h4 : startsWith (wordChar cfg) rest = false)
+    (h5 : cfg.kw [c] = none) : IsUnit cfg (.token .identifier .none) [c] rest :=
+  .identifier c [] rest (by simp [wordStart, h1, h2, h3]) (by simp) h4 h5
+
 end Aplang
